@@ -67,6 +67,14 @@ claimed = {
    text="~100k (quick) / 2.4M (thorough) recover-wrapped constructor calls over Go types x byte sizes x values at/beyond every bound x call shapes, judged by a reference clamp model (no panic, clamp not wrap, errors for unsupported/unparsable, cross-shape equality), an errored-item battery (never Equal, refused by NewDataMessage / NewDataMessageFromHeader / Derive.Build, nested to depth 5), and a wire half: 864 (quick) sends of errored items through every send call of live connections with the peer's log proving that no byte left." + HELD,
    note="Where the docs explicitly document an error instead of a clamp both are accepted (never another value). Typed-nil item pointers are outside the statement (noted, not judged). Wire half: hsmsss.",
    technique="reference clamp model + recover-wrapped constructor fuzzing; wire observer (scripted peer log) for refused sends"),
+ "C17": dict(level=E,
+   text="Outbound: a real secs1 connection transmits ~7k (quick) / 75k (thorough) messages (every body length 0..500/1000 plus block boundaries and 10-100 KiB bodies, every stream/function/W, both roles, device ids 0/1/0x7FFF, NAK-then-retransmit) to an independent SEMI E4 reference peer over loopback TCP; every transmission must parse as blocks 1..N of <=244 bytes with the right E-bit, device id, R-bit, header fields and 16-bit checksum, bodies concatenating to the SECS-II encoding. Inbound: 1024 / 24000 block sequences (one fault from 17 classes per message, each followed by a clean sentinel) fed by the reference peer; handler deliveries must equal those of the reference E4 receiver model and the link must stay Selected. Race build." + HELD,
+   note="Trusts harness/ref/e4 as the reading of SEMI E4 (block format, 9.4.4 receiver algorithm, handshake). 'Within T4'/'expired' rest on measured gaps (premise; forked model, discarded only when the branches disagree).",
+   technique="reference-implementation peer: independent E4 codec + receiver model on the other end of a real secs1 link; delivery/byte oracle under the race detector"),
+ "C18": dict(level=F,
+   text="Two real secs1 connections (host, equipment) joined by a fault-injecting middlebox that parses the character stream with the reference E4 model and applies 302 (quick) / 3458 (thorough) fault plans: one flipped character at EVERY position of a block transmission, dropped/truncated blocks, every handshake character dropped or replaced, delays beyond T1/T2, persistent faults exhausting the retry limit, forced contention, random compositions; retry limits 0..3, 1-4 block messages, unique tokens. Offline scan of the recorded history: exactly-once intact in-order delivery of every successful send, attempts <= retry limit + 1, master-first contention resolution, no hang (watchdog + dump). Race build." + HELD,
+   note="Two genuine defects found and recorded as known findings (stale control characters consumed as handshake answers after a late grant; a block ACKed during link teardown whose message is then dropped). Overlaps of simultaneous sends are sampled; liveness is bounded (45 s send watchdog).",
+   technique="fault-injecting middlebox between two real endpoints + offline exactly-once/order/retry-bound checker over the recorded line history"),
  "C19": dict(level=E,
    text="Pure half: the two linktest decision functions (verif export) vs a reference written from the documented rules, exhaustive over a small ordered domain, and the whole failure-accounting loop folded over ALL ~300k (quick) / 2.4M (thorough) observation histories of length <=6/7 x threshold 1..4 x suppression on/off, plus two reducer-independent invariants. E2E half: scripted peers (silent, answering, alive-but-not-answering with suppression on/off, chatty, withheld reply) on real connections; probe counts seen by the peer, still-connected checks, sound lower bound on the drop time, ControlMetrics vs peer counts." + HELD,
    note="E2E timing is decided one-sidedly (counts and sound lower bounds); the chatty scenario needs a measured premise and is discarded otherwise.",
